@@ -77,7 +77,7 @@ def readValue (minBuf minRead : Nat) : Nat → St → Out × St
       if s.remain.isEmpty then none
       else
         let fl := internalParseFlags s.remain
-        match parseValue fl (fuelFor s.remain) s.remain with
+        match parseValue fl 0 (fuelFor s.remain) s.remain with
         | .ok k r =>
           if !r.isEmpty || s.err.isSome || !k.isNum then
             let (rem, n) := skipN r
